@@ -1,14 +1,15 @@
 (* Correspondence checker for the C02 sweep: any one modelled filter (math, html/url, string,
-   array) applied to any input with any arguments — the type-confused combinations included. *)
-From LV Require Import Corr Filters_math Filters_html Filters_seq Eval.
+   array, date) applied to any input with any arguments — the type-confused combinations included. *)
+From LV Require Import Corr Filters_math Filters_html Filters_seq Filters_date Eval.
 Record fcase := mkF {
   fc_f : filt; fc_input : value; fc_args : list value;
   fc_shows : list (spec_float * str); fc_parses : list (str * option spec_float);
   fc_uppers : list (char * str); fc_lowers : list (char * str); fc_graphs : list (str * list str);
+  fc_dates : list (str * option datetime);      (* DateTime::from_str of the input, for the date filter *)
   fc_expected : outcome value;
 }.
 Definition filter_check (c : fcase) : bool :=
-  let O := table_oracle5 (fc_shows c) (fc_parses c) (fc_uppers c) (fc_lowers c) (fc_graphs c) in
+  let O := with_dates (table_oracle5 (fc_shows c) (fc_parses c) (fc_uppers c) (fc_lowers c) (fc_graphs c)) (fc_dates c) in
   match apply_filter O (fc_f c) (fc_input c) (fc_args c) with
   | Panic 900%N => match fc_expected c with OErr => false | _ => true end      (* unspecified sort: the known finding *)
   | r => outcome_same value_same (outcome_of r) (fc_expected c)
